@@ -135,7 +135,7 @@ def build_elsewhere(ops):
         return None
 
 
-HISTORY = {"ghosts": 0, "failed_call_preludes": 0, "one_in": 25}
+HISTORY = {"ghosts": 0, "failed_call_preludes": 0, "one_in": 12}
 
 
 def ghost_ops(ops):
